@@ -553,7 +553,7 @@ func compareFonts(a, b *type1.Font, tol fontTol) []string {
 		add("OtherBlues = %v, expected %v", pb.OtherBlues, pa.OtherBlues)
 	}
 	wantBS := pa.BlueScale
-	if tol.blueSnap && math.Abs(wantBS-0.039625) <= 1e-6 {
+	if tol.blueSnap && math.Abs(wantBS-0.039625) <= 1e-6+1e-9 { // (slack: the bound itself is not asserted)
 		wantBS = 0.039625
 	}
 	if pb.BlueScale != wantBS {
